@@ -51,6 +51,63 @@ Theorem C21_cc_only_the_compressed : forall C parse_cert ee adv alg declared out
 Proof. exact cc_only_the_compressed. Qed.
 Print Assumptions C21_cc_only_the_compressed.
 
+(* ---- decompressCert as it is after commit 4697a7d: zstd frames declaring Window_Size > 8 MiB are refused ----
+   [decompress_cert_top] takes what the stream validly encodes (out, chunks) AND, for zstd, the (Window_Size,
+   length) of every frame.  The full recovery statement now needs the premise "every declared window <= 8 MiB";
+   without it it is refuted (a deliberate deviation, recorded as finding valid-stream-rejected/zstd-window-over-8MiB:
+   the cap bounds what a hostile frame header can make the client allocate, property C33; RFC 8878 3.1.1.1.2
+   recommends encoders not to exceed 8 MB, and a certificate message of <= 256 KiB never needs more). *)
+Theorem C21_cc_recover_top : forall C parse_cert ee adv alg out chunks fs,
+  advertisedb adv alg = true -> known_alg alg = true -> good_reader out chunks ->
+  dlen out <= maxHandshakeCertificateMsg ->
+  windows_ok alg fs ->      (* alg = zstd -> every frame declares Window_Size <= 8 MiB *)
+  decompress_cert_top C parse_cert ee adv alg (dlen out) true fs (mkR out chunks REof) =
+    match parse_cert (header (dlen out) ++ out) with Some c => Ok c | None => Err alertUnexpectedMessage end.
+Proof. exact top_recover. Qed.
+Print Assumptions C21_cc_recover_top.
+
+Definition C21_cc_recover_top_full : Prop := forall C parse_cert ee adv alg out chunks fs,
+  advertisedb adv alg = true -> known_alg alg = true -> good_reader out chunks ->
+  dlen out <= maxHandshakeCertificateMsg ->
+  decompress_cert_top C parse_cert ee adv alg (dlen out) true fs (mkR out chunks REof) =
+    match parse_cert (header (dlen out) ++ out) with Some c => Ok c | None => Err alertUnexpectedMessage end.
+(* witness: one valid zstd frame whose header names a 16 MiB window *)
+Theorem C21_cc_recover_top_refuted : ~ C21_cc_recover_top_full.
+Proof.
+  intros H. specialize (H bytes (fun b => Some b) false [3] 3 [0;0;0;0] [4]%nat [(16777216, 4)] eq_refl eq_refl).
+  assert (G : good_reader [0;0;0;0] [4]%nat) by (split; [repeat constructor | reflexivity]).
+  specialize (H G). vm_compute in H. assert (L : 4 <= 262144) by lia. specialize (H L). discriminate.
+Qed.
+Print Assumptions C21_cc_recover_top_refuted.
+
+Theorem C21_zstd_window_refused : forall C parse_cert ee adv declared out chunks e fs,
+  good_reader out chunks -> Exists (fun f => maxCompressedCertZstdWindow < fst f) fs ->
+  decompress_cert_top C parse_cert ee adv CertCompressionZstd declared true fs (mkR out chunks e) = Err alertBadCertificate.
+Proof. exact top_window_refused. Qed.
+Print Assumptions C21_zstd_window_refused.
+
+(* the negative clauses hold unconditionally for the code as it is *)
+Theorem C21_top_length_mismatch : forall C parse_cert ee adv alg declared out chunks e fs,
+  good_reader out chunks -> declared <> dlen out ->
+  decompress_cert_top C parse_cert ee adv alg declared true fs (mkR out chunks e) = Err alertBadCertificate.
+Proof. exact top_mismatch. Qed.
+Theorem C21_top_unadvertised : forall C parse_cert ee adv alg declared open_ok fs r,
+  advertisedb adv alg = false ->
+  decompress_cert_top C parse_cert ee adv alg declared open_ok fs r = Err alertBadCertificate.
+Proof. exact top_unadvertised. Qed.
+Theorem C21_top_only_the_compressed : forall C parse_cert ee adv alg declared out chunks e fs c,
+  good_reader out chunks ->
+  decompress_cert_top C parse_cert ee adv alg declared true fs (mkR out chunks e) = Ok c ->
+  advertisedb adv alg = true /\ declared = dlen out /\ e = REof /\ declared <= maxHandshakeCertificateMsg /\
+  parse_cert (header declared ++ out) = Some c.
+Proof. exact top_only_the_compressed. Qed.
+Print Assumptions C21_top_only_the_compressed.
+Example C21_ex_windows_ok : windows_ok 3 [(8388608, 100); (1024, 5)] /\ windows_ok 1 [(16777216, 4)].
+Proof.
+  split; intros E; [|discriminate].
+  unfold maxCompressedCertZstdWindow. constructor; [cbn [fst]; lia|]. constructor; [cbn [fst]; lia|]. constructor.
+Qed.
+
 (* ---- the code as found (single Read, no probe): the same statements are false ---- *)
 Definition C21_v0_recover_full : Prop := forall C parse_cert ee adv alg out chunks,
   advertisedb adv alg = true -> known_alg alg = true -> good_reader out chunks ->
